@@ -7,6 +7,7 @@ EXPLANATION = (
     "rule requires that enumeration to be accompanied by a read of the transaction's staged relationships (a WriteableGraph method that returns "
     "staged / pending relationships, called in the same function or its callees). The read-side overlay semantics (hiding relationships whose "
     "endpoint was deleted in the same run) is runtime behaviour and is not decided; C06 covers only direction symmetry."
+    " C14.3: every node a MERGE candidate enumeration yields has passed a deleted_nodes test of the statement overlay (the true arm cannot reach the push), so MERGE cannot bind a node the same statement deleted."
 )
 
 Q = "nervusdb_query::executor::create_delete_ops::"
